@@ -102,7 +102,9 @@ one_call (int ep, int state, int m, const char *phrase, const char *setting, int
           snprintf (ra_dp, 200, "%s", state == ST_FAILURE ? "*0" : state == ST_SUCCESS ? prev_success[m] : "");
         }
     }
-  errno = 0;
+  /* errno as an earlier, unrelated libc call may have left it: a failing call must replace it with a documented code */
+  static const int entry_errno[4] = { 0, ENOENT, EAGAIN, EPERM };
+  errno = entry_errno[vh_hash_str (replay, 9) % 4];
   int k = VH_TRY (vh_thorough ? 3000 : 1000);
   if (k == 0)
     {
